@@ -1,6 +1,7 @@
 package main
 
 import (
+	"context"
 	"encoding/json"
 	"errors"
 	"fmt"
@@ -9,6 +10,7 @@ import (
 
 	modbus "github.com/aldas/go-modbus-client"
 	"github.com/aldas/go-modbus-client/packet"
+	"github.com/aldas/go-modbus-client/server"
 )
 
 // codecCase is the union of all inputs a codec case can carry.
@@ -388,8 +390,20 @@ var entries = map[string]parseFn{
 		}
 		return n, nil
 	},
+	// the server's stream assembler fed one read (a fresh assembler per call): classifier + dispatcher + error reply
+	"AssemblerReceiveRead": func(b []byte) (any, error) {
+		asm := &server.ModbusTCPAssembler{Handler: refusingHandler{}}
+		out, closeConn := asm.ReceiveRead(context.Background(), b, len(b))
+		return fmt.Sprintf("%v/%v", out, closeConn), nil
+	},
 	"AsTCPErrorPacket": func(b []byte) (any, error) { return nil, packet.AsTCPErrorPacket(b) },
 	"AsRTUErrorPacket": func(b []byte) (any, error) { return nil, packet.AsRTUErrorPacket(b) },
+}
+
+type refusingHandler struct{}
+
+func (refusingHandler) Handle(ctx context.Context, received packet.Request) (packet.Response, error) {
+	return nil, errors.New("verif: refused")
 }
 
 func isNilValue(v any) bool {
@@ -669,13 +683,20 @@ func sweepNewReq(w *writer, c *codecCase, rng *rand.Rand) {
 	w.emit(Ev{"op": "newreq_rejected", "fc": c.Fc, "framing": c.Framing, "from": c.From, "to": c.To, "count": rejected})
 }
 
+// the error of the previous exception frame (any entry) and what it encoded to when it was returned
+var lastExcErr error
+var lastExcThen []int
+var lastExcFrame []int
+var lastExcEntry string
+
 func doParse(c *codecCase, isResp bool) Ev {
 	op := "parsereq"
 	if isResp {
 		op = "parseresp"
 	}
 	e := Ev{"op": op, "entry": c.Entry, "frame": orEmpty(c.Frame), "outcome": "", "tid": 0, "blen": -1,
-		"reenc": []int{}, "nilOnErr": true, "typeOK": true, "framing": c.Framing}
+		"reenc": []int{}, "nilOnErr": true, "typeOK": true, "framing": c.Framing,
+		"reencAfter": []int{}, "prevThen": []int{}, "prevNow": []int{}, "prevFrame": []int{}, "prevEntry": ""}
 	if isResp {
 		e["fields"] = zeroRespFields()
 	} else {
@@ -691,6 +712,15 @@ func doParse(c *codecCase, isResp bool) Ev {
 	r := safeCall(f, in)
 	e["outcome"] = r.outcome
 	errInfo(r.err, e)
+	if isResp && e["excIs"] == 1 {
+		// the typed exception error handed out for an EARLIER frame must still describe that frame
+		if lastExcErr != nil {
+			now := Ev{}
+			errInfo(lastExcErr, now)
+			e["prevThen"], e["prevNow"], e["prevFrame"], e["prevEntry"] = lastExcThen, now["errPkt"], lastExcFrame, lastExcEntry
+		}
+		lastExcErr, lastExcThen, lastExcFrame, lastExcEntry = r.err, e["errPkt"].([]int), orEmpty(c.Frame), c.Entry
+	}
 	switch r.outcome {
 	case "err":
 		e["nilOnErr"] = isNilValue(r.v)
@@ -719,6 +749,11 @@ func doParse(c *codecCase, isResp bool) Ev {
 						}
 					}()
 					e["reenc"] = ints(r.v.(interface{ Bytes() []byte }).Bytes())
+					// the caller reuses its receive buffer: the decoded request must not change with it
+					for i := range in {
+						in[i] ^= 0xFF
+					}
+					e["reencAfter"] = ints(r.v.(interface{ Bytes() []byte }).Bytes())
 				}()
 			}
 		}
